@@ -162,6 +162,10 @@ type strInfo struct {
 	verdict verdict
 	v       float64
 	why     string // for vOpen
+	// openVals: an open verdict that still bounds the outcome - the text is either
+	// rejected or denotes one of these values (the readings the reference
+	// implementation has on different C libraries)
+	openVals []float64
 	core    string // the text after trimming blanks and sign
 	neg     bool
 	signed  bool
@@ -208,6 +212,13 @@ func classifyStr(s string) strInfo {
 	}
 	if in.signed && n.hex {
 		in.verdict, in.why = vOpen, "signed hexadecimal (depends on the C library's strtod)"
+		// C99 strtod reads the sign; where strtod stops at the x, strtoul reads the
+		// sign too and '-' wraps modulo 2^64
+		if in.neg {
+			in.openVals = []float64{-n.v, 18446744073709551616.0 - n.v}
+		} else {
+			in.openVals = []float64{n.v}
+		}
 		return in
 	}
 	in.verdict, in.v = vAccept, n.v
@@ -493,7 +504,7 @@ func checkNum(c *fw.Ctx, h *holder, cs *Case, count bool) *div {
 			Finding: attributeNum("literal", s, strInfo{}, 0, got)}
 	}
 	in := classifyStr(s)
-	if in.verdict == vOpen {
+	if in.verdict == vOpen && in.openVals == nil {
 		cnt("num_" + cs.Route + "_open")
 		return nil
 	}
@@ -518,6 +529,24 @@ func checkNum(c *fw.Ctx, h *holder, cs *Case, count bool) *div {
 	got := "error"
 	if o.Err == nil {
 		got = canon(res)
+	}
+	if in.verdict == vOpen {
+		// rejected, or one of the admissible readings
+		if o.Err != nil || len(res) == 1 && res[0] == lua.LNil {
+			cnt("num_" + cs.Route + "_open_rejected")
+			return nil
+		}
+		for _, v := range in.openVals {
+			if cs.Route == "unm" {
+				v = -v
+			}
+			if len(res) == 1 && numEq(res[0], v) {
+				cnt("num_" + cs.Route + "_open_value_admissible")
+				return nil
+			}
+		}
+		return &div{What: fmt.Sprintf("%s of %s gives %s: neither rejected nor one of the readings %v (%s)", cs.Route, show(cs.S), got, in.openVals, in.why), Got: got,
+			Finding: attributeNum(cs.Route, s, in, 0, got)}
 	}
 	if in.verdict == vAccept {
 		if o.Err == nil && len(res) == 1 && numEq(res[0], want) {
